@@ -8,6 +8,7 @@ import (
 	"fmt"
 	"go/ast"
 	"go/parser"
+	"go/printer"
 	"go/token"
 	"os"
 	"path/filepath"
@@ -1028,3 +1029,185 @@ func kernelsSplit() {
 	all.WriteString("End QKernels.\n")
 	out.WriteString(all.String())
 }
+
+// ---------------------------------------------------------------------------
+// bytetree: the branch structure of the edge loops of Tree.doUpdate and Tree.Remove, what the exact-match branch
+// and edge.split do with the node's key, and the queue discipline of Walk (Model/Tree.v transcribes these by hand).
+// ---------------------------------------------------------------------------
+func exprText(e ast.Expr) string {
+	var b strings.Builder
+	printer.Fprint(&b, fset, e)
+	return strings.Join(strings.Fields(b.String()), " ")
+}
+
+// branchAction names what the body of one branch of the edge loop does.
+func branchAction(b *ast.BlockStmt) string {
+	act := "other"
+	ast.Inspect(b, func(n ast.Node) bool {
+		switch x := n.(type) {
+		case *ast.CallExpr:
+			switch p := selectorPath(x.Fun); {
+			case strings.HasSuffix(p, ".doUpdate"):
+				act = "set"
+			case strings.HasSuffix(p, ".split"):
+				act = "split"
+			case strings.HasSuffix(p, ".doRemoveFor"):
+				act = "found"
+			}
+		case *ast.BranchStmt:
+			if x.Tok == token.CONTINUE && act == "other" {
+				act = "descend"
+			}
+		}
+		return true
+	})
+	return act
+}
+
+// edgeLoopBranches returns the (condition, action) chain of the if / else-if statement inside `for _, edge := range n.edges`
+// and what follows the loop ("append" = a new edge is appended to n.edges, "none" = return nil).
+func edgeLoopBranches(fd *ast.FuncDecl) (branches [][2]string, after string, ok bool) {
+	var loop *ast.RangeStmt
+	var outer *ast.ForStmt
+	ast.Inspect(fd.Body, func(n ast.Node) bool {
+		switch x := n.(type) {
+		case *ast.ForStmt:
+			if outer == nil {
+				outer = x
+			}
+		case *ast.RangeStmt:
+			if loop == nil && selectorPath(x.X) == "n.edges" {
+				loop = x
+			}
+		}
+		return true
+	})
+	if loop == nil || outer == nil {
+		return nil, "", false
+	}
+	for _, st := range loop.Body.List {
+		ifs, isIf := st.(*ast.IfStmt)
+		for isIf && ifs != nil {
+			branches = append(branches, [2]string{exprText(ifs.Cond), branchAction(ifs.Body)})
+			next, more := ifs.Else.(*ast.IfStmt)
+			if !more {
+				if ifs.Else != nil {
+					branches = append(branches, [2]string{"else", branchAction(ifs.Else.(*ast.BlockStmt))})
+				}
+				break
+			}
+			ifs = next
+		}
+	}
+	after = "none"
+	seenLoop := false
+	for _, st := range outer.Body.List {
+		if st == ast.Stmt(loop) {
+			seenLoop = true
+			continue
+		}
+		if !seenLoop {
+			continue
+		}
+		ast.Inspect(st, func(n ast.Node) bool {
+			if c, isCall := n.(*ast.CallExpr); isCall {
+				if id, isId := c.Fun.(*ast.Ident); isId && id.Name == "append" && len(c.Args) > 0 && selectorPath(c.Args[0]) == "n.edges" {
+					after = "append"
+				}
+			}
+			return true
+		})
+	}
+	return branches, after, true
+}
+
+func pairList(bs [][2]string) string {
+	items := make([]string, len(bs))
+	for i, b := range bs {
+		items[i] = fmt.Sprintf("(%q, %q)", b[0], b[1])
+	}
+	return "[" + strings.Join(items, "; ") + "]"
+}
+
+func bytetreeFacts() {
+	out.WriteString("\n(* ---- bytetree: edge loops of Tree.doUpdate / Tree.Remove, key assignment, Walk's queue: bytetree/bytetree.go ---- *)\n")
+	f := parse("bytetree/bytetree.go")
+	for _, fn := range []struct{ name, def string }{{"doUpdate", "gen_tree_update"}, {"Remove", "gen_tree_remove"}} {
+		var bs [][2]string
+		after := "?"
+		if fd := funcDecl(f, "Tree", fn.name); fd != nil {
+			if b, a, ok := edgeLoopBranches(fd); ok {
+				bs, after = b, a
+			} else {
+				unsupported = append(unsupported, fn.def)
+			}
+		} else {
+			unsupported = append(unsupported, fn.def)
+		}
+		fmt.Fprintf(&out, "Definition %s_branches : list (string * string) := %s.\nDefinition %s_after : string := %q.\n", fn.def, pairList(bs), fn.def, after)
+	}
+	// the exact-match branch of doUpdate: does a node without data take the key, and is that what it reports as "new"?
+	takesKey, reportsNew := false, false
+	if fd := funcDecl(f, "Tree", "doUpdate"); fd != nil {
+		ast.Inspect(fd.Body, func(n ast.Node) bool {
+			if ifs, ok := n.(*ast.IfStmt); ok {
+				cond := exprText(ifs.Cond)
+				for _, st := range ifs.Body.List {
+					if as, ok := st.(*ast.AssignStmt); ok && len(as.Lhs) == 1 && strings.HasSuffix(selectorPath(as.Lhs[0]), ".key") && exprText(as.Rhs[0]) == "fullKey" {
+						// the guard must be the variable defined as `<x>.data == nil`
+						ast.Inspect(fd.Body, func(m ast.Node) bool {
+							if d, ok := m.(*ast.AssignStmt); ok && d.Tok == token.DEFINE && len(d.Lhs) == 1 && exprText(d.Lhs[0]) == cond &&
+								strings.HasSuffix(exprText(d.Rhs[0]), ".data == nil") {
+								takesKey = true
+							}
+							if r, ok := m.(*ast.ReturnStmt); ok && len(r.Results) == 2 && exprText(r.Results[1]) == cond {
+								reportsNew = true
+							}
+							return true
+						})
+					}
+				}
+			}
+			return true
+		})
+	}
+	fmt.Fprintf(&out, "Definition gen_tree_exact_takes_key : bool := %v.\nDefinition gen_tree_exact_reports_new : bool := %v.\n", takesKey, reportsNew)
+	// edge.split: the split node takes the key exactly when the key ends at the split point
+	splitCond, splitElseKey := "", false
+	if fd := funcDecl(f, "edge", "split"); fd != nil {
+		for _, st := range fd.Body.List {
+			if ifs, ok := st.(*ast.IfStmt); ok && splitCond == "" {
+				splitCond = exprText(ifs.Cond)
+				if eb, ok := ifs.Else.(*ast.BlockStmt); ok {
+					for _, es := range eb.List {
+						if as, ok := es.(*ast.AssignStmt); ok && strings.HasSuffix(selectorPath(as.Lhs[0]), ".key") && exprText(as.Rhs[0]) == "fullKey" {
+							splitElseKey = true
+						}
+					}
+				}
+			}
+		}
+	}
+	fmt.Fprintf(&out, "Definition gen_tree_split_leaf_when : string := %q.\nDefinition gen_tree_split_else_takes_key : bool := %v.\n", splitCond, splitElseKey)
+	// Walk: takes nodes[0], continues with nodes[1:], appends the children at the end
+	queue := []string{}
+	if fd := funcDecl(f, "Tree", "Walk"); fd != nil {
+		ast.Inspect(fd.Body, func(n ast.Node) bool {
+			if as, ok := n.(*ast.AssignStmt); ok && len(as.Lhs) == 1 && len(as.Rhs) == 1 {
+				l, r := exprText(as.Lhs[0]), exprText(as.Rhs[0])
+				switch {
+				case l == "n" && r == "nodes[0]":
+					queue = append(queue, "take-first")
+				case l == "nodes" && r == "nodes[1:]":
+					queue = append(queue, "drop-first")
+				case l == "nodes" && r == "append(nodes, e.target)":
+					queue = append(queue, "append-child")
+				}
+			}
+			return true
+		})
+	}
+	fmt.Fprintf(&out, "Definition gen_tree_walk_queue : list string := %s.\n", quoteStrs(queue))
+}
+
+func init() { sections = append(sections, bytetreeFacts) }
